@@ -701,50 +701,7 @@ func checkC04(c *Ctx) {
 
 	// ---- C04.6 marking is unconditional: MarkActive(reg) marks the registration used whenever its timeout record
 	// exists - nothing but the two "found" tests (enabled transport, tracked record) may keep it from doing so
-	r.Rule("C04.6", "markActive sets the record to used whatever else holds (only 'transport / record not found' may stop it); MarkActive delegates to it", 2)
-	if f := c.fn("C04.6", "pkg/station/lib", "RegisteredDecoys", "markActive"); f != nil {
-		usedVal := constIntOf(c.P, repoMod+"/pkg/station/lib", "regStatusUsed")
-		n := 0
-		eachInstr(f, func(in ssa.Instruction) {
-			st, ok := in.(*ssa.Store)
-			if !ok {
-				return
-			}
-			_, fld, ok := fieldOwner(st.Addr)
-			if !ok || fld != "status" {
-				return
-			}
-			cv, isC := constOf(st.Val)
-			if !isC || cv.ExactString() != usedVal {
-				return
-			}
-			n++
-			var extra []string
-			okk := reachGame(f, in, func(bl *ssa.BasicBlock) int {
-				iff, ok := bl.Instrs[len(bl.Instrs)-1].(*ssa.If)
-				if !ok {
-					return gameAny
-				}
-				cnd, pol := normCond(iff.Cond)
-				if strings.HasSuffix(cnd, "]#1") { // comma-ok of a map lookup: go through FOUND
-					if pol {
-						return gameSucc0
-					}
-					return gameSucc1
-				}
-				if hit, _ := reachAt(f, bl, isInstr(in), nil, nil); !hit {
-					return gameAny
-				}
-				extra = append(extra, cnd)
-				return gameAll
-			})
-			r.Check(okk, "C04.6", "markActive: status = used for every tracked registration of an enabled transport", in.Pos(), fnName(f), "reachable whatever the outcome of every condition other than the found-tests",
-				"an identified client's registration is not marked used if a further condition goes the wrong way ("+firstN(strings.Join(uniq(sortedCopy(extra)), ", "), 120)+"): it expires at the unused timeout while its tunnel is open and the detector is never told to extend it")
-		})
-		if n == 0 {
-			r.Unk("C04.6", "markActive: status store", f.Pos(), fnName(f), "no store of regStatusUsed into a timeout record found")
-		}
-	}
+	checkMarkUnconditional(c, "C04.6", 2)
 	if f := c.fn("C04.6", "pkg/station/lib", "RegistrationManager", "MarkActive"); f != nil {
 		calls := callsIn(f, shortIs("markActive"))
 		okk := len(calls) == 1
@@ -1112,4 +1069,56 @@ func onlyObservesBuffer(hf *ssa.Function, call *ssa.Call, buf ssa.Value) bool {
 		}
 	}
 	return true
+}
+
+// checkMarkUnconditional: markActive sets the timeout record to used whatever else holds - only the two "found" tests
+// (enabled transport, tracked record) may keep it from doing so. Shared by C04.6 and C08.4b (a registration that
+// carried a connection but was not marked - because a lock was busy, a publish failed, ... - is swept at the
+// 10-minute mark).
+func checkMarkUnconditional(c *Ctx, rule string, minInstances int) {
+	r := c.R
+	r.Rule(rule, "markActive sets the record to used whatever else holds (only 'transport / record not found' may stop it); MarkActive delegates to it", minInstances)
+	if f := c.fn(rule, "pkg/station/lib", "RegisteredDecoys", "markActive"); f != nil {
+		usedVal := constIntOf(c.P, repoMod+"/pkg/station/lib", "regStatusUsed")
+		n := 0
+		eachInstr(f, func(in ssa.Instruction) {
+			st, ok := in.(*ssa.Store)
+			if !ok {
+				return
+			}
+			_, fld, ok := fieldOwner(st.Addr)
+			if !ok || fld != "status" {
+				return
+			}
+			cv, isC := constOf(st.Val)
+			if !isC || cv.ExactString() != usedVal {
+				return
+			}
+			n++
+			var extra []string
+			okk := reachGame(f, in, func(bl *ssa.BasicBlock) int {
+				iff, ok := bl.Instrs[len(bl.Instrs)-1].(*ssa.If)
+				if !ok {
+					return gameAny
+				}
+				cnd, pol := normCond(iff.Cond)
+				if strings.HasSuffix(cnd, "]#1") { // comma-ok of a map lookup: go through FOUND
+					if pol {
+						return gameSucc0
+					}
+					return gameSucc1
+				}
+				if hit, _ := reachAt(f, bl, isInstr(in), nil, nil); !hit {
+					return gameAny
+				}
+				extra = append(extra, cnd)
+				return gameAll
+			})
+			r.Check(okk, rule, "markActive: status = used for every tracked registration of an enabled transport", in.Pos(), fnName(f), "reachable whatever the outcome of every condition other than the found-tests",
+				"an identified client's registration is not marked used if a further condition goes the wrong way ("+firstN(strings.Join(uniq(sortedCopy(extra)), ", "), 120)+"): it expires at the unused timeout while its tunnel is open and the detector is never told to extend it")
+		})
+		if n == 0 {
+			r.Unk(rule, "markActive: status store", f.Pos(), fnName(f), "no store of regStatusUsed into a timeout record found")
+		}
+	}
 }
